@@ -225,7 +225,7 @@ func (t *verifTracer) ev(kind string, a, b action, extra int, locked bool) {
 		}
 	}
 	fmt.Fprintf(&t.buf, "ev %d %s %d %d %d\n", na.lvl, kind, na.id, nb.id, extra)
-	if t.buf.Len() > 1<<16 {
+	if t.buf.Len() > 1<<12 {
 		t.flush()
 	}
 }
